@@ -99,6 +99,8 @@ impl TracerFactory for RecTracerFactory {
 }
 
 pub struct RunOut {
+    /// names of the events the session sent to its (simulated) parent session
+    pub parent_inbox: Vec<String>,
     pub trace: Vec<String>,
     pub panicked: bool,
     pub timed_out: bool,
@@ -173,7 +175,7 @@ pub fn run_session_opts(
     if let Some(id) = vdm_id {
         crate::vdm::unregister_log(&id);
     }
-    RunOut { trace, panicked, timed_out, final_configuration }
+    RunOut { parent_inbox: vec![], trace, panicked, timed_out, final_configuration }
 }
 
 /// Starts `fsm` as a real session and delivers the event batches one after the other: batch `i`
@@ -181,25 +183,110 @@ pub fn run_session_opts(
 /// the model predicts), i.e. while it is idle with an empty queue.  Events the session sends to
 /// itself therefore interleave deterministically with the batches.
 pub fn run_session_feed(
-    mut fsm: Box<Fsm>,
+    fsm: Box<Fsm>,
     batches: &[Vec<Event>],
     idle_before: &[usize],
     verbose: bool,
     timeout: Duration,
     vdm: bool,
 ) -> RunOut {
+    run_session_feed_with(fsm, batches, idle_before, verbose, timeout, vdm, |_log| ActionWrapper::new(), &[])
+}
+
+/// Custom action that records its (first) argument and the current configuration into the
+/// session's observation log: `mark <arg> cfg=<ids>`.  Callable from rfsm-expression and
+/// ECMAScript content as `mark(x)`.
+pub struct MarkAction {
+    pub log: Log,
+}
+
+impl rufsm::actions::Action for MarkAction {
+    fn execute(&self, arguments: &[rufsm::datamodel::Data], global: &rufsm::fsm::GlobalData) -> Result<rufsm::datamodel::Data, String> {
+        let a = arguments.iter().map(|d| d.to_string()).collect::<Vec<_>>().join("|");
+        let cfg: Vec<String> = global.configuration.iterator().map(|x| x.to_string()).collect();
+        self.log.lock().unwrap_or_else(|e| e.into_inner()).push(format!("mark {} cfg={}", a, cfg.join(",")));
+        Ok(rufsm::datamodel::Data::Integer(0))
+    }
+    fn get_copy(&self) -> Box<dyn rufsm::actions::Action> {
+        Box::new(MarkAction { log: self.log.clone() })
+    }
+}
+
+pub fn mark_actions(log: &Log) -> ActionWrapper {
+    let mut a = ActionWrapper::new();
+    a.add_action("mark", Box::new(MarkAction { log: log.clone() }));
+    a
+}
+
+/// id of the simulated parent session used when a machine is run "as an invoked child"
+pub const FAKE_PARENT: u32 = 4_000_000;
+
+/// as `run_session_feed_with`, but the machine runs as the child of a simulated parent session
+/// (registered in the executor under `FAKE_PARENT`) that invoked it under `invoke_id`; what the
+/// child sends to its parent (done.invoke.<id>, `#_parent` sends) is collected in `parent_inbox`
+pub fn run_child_session_feed(
+    mut fsm: Box<Fsm>,
+    invoke_id: &str,
+    batches: &[Vec<Event>],
+    idle_before: &[usize],
+    timeout: Duration,
+    vdm: bool,
+) -> RunOut {
+    fsm.caller_invoke_id = Some(invoke_id.to_string());
+    fsm.parent_session_id = Some(FAKE_PARENT);
+    let (tx, rx) = std::sync::mpsc::channel::<Box<Event>>();
+    let mut out = run_session_feed_inner(fsm, batches, idle_before, true, timeout, vdm, |_l| ActionWrapper::new(), &[], Some(tx));
+    while let Ok(e) = rx.try_recv() {
+        out.parent_inbox.push(e.name.clone());
+    }
+    out
+}
+
+pub fn run_session_feed_with(
+    fsm: Box<Fsm>,
+    batches: &[Vec<Event>],
+    idle_before: &[usize],
+    verbose: bool,
+    timeout: Duration,
+    vdm: bool,
+    make_actions: impl FnOnce(&Log) -> ActionWrapper,
+    options: &[(String, String)],
+) -> RunOut {
+    run_session_feed_inner(fsm, batches, idle_before, verbose, timeout, vdm, make_actions, options, None)
+}
+
+#[allow(clippy::too_many_arguments)]
+fn run_session_feed_inner(
+    mut fsm: Box<Fsm>,
+    batches: &[Vec<Event>],
+    idle_before: &[usize],
+    verbose: bool,
+    timeout: Duration,
+    vdm: bool,
+    make_actions: impl FnOnce(&Log) -> ActionWrapper,
+    options: &[(String, String)],
+    fake_parent: Option<std::sync::mpsc::Sender<Box<Event>>>,
+) -> RunOut {
     let (tracer, log) = RecTracer::new(verbose);
     fsm.tracer = Box::new(tracer);
     let executor = FsmExecutor::new_without_io_processor();
+    if let Some(tx) = fake_parent {
+        let parent = rufsm::fsm::ScxmlSession::new_without_join_handle(FAKE_PARENT, tx);
+        executor.state.lock().unwrap().sessions.insert(FAKE_PARENT, parent);
+    }
+    for (k, v) in options {
+        executor.state.lock().unwrap().datamodel_options.insert(k.clone(), v.clone());
+    }
     let mut vdm_id = None;
     if vdm {
         let id = crate::vdm::register_log(&log);
         executor.state.lock().unwrap().datamodel_options.insert(crate::vdm::OPT_LOG.to_string(), id.clone());
         vdm_id = Some(id);
     }
+    let actions = make_actions(&log);
     let mut session = fsm::start_fsm_with_data_and_finish_mode(
         fsm,
-        ActionWrapper::new(),
+        actions,
         Box::new(executor.clone()),
         &[],
         FinishMode::KEEP_CONFIGURATION,
@@ -256,7 +343,7 @@ pub fn run_session_feed(
     if let Some(id) = vdm_id {
         crate::vdm::unregister_log(&id);
     }
-    RunOut { trace, panicked, timed_out, final_configuration }
+    RunOut { parent_inbox: vec![], trace, panicked, timed_out, final_configuration }
 }
 
 /// XML attribute escaping for generated documents.
